@@ -79,6 +79,9 @@ def policy_text(pol):
     for key, f in (('compressions', 'compressions'), ('host keys', 'host_keys'), ('optional host keys', 'optional_host_keys'),
                    ('key exchanges', 'kex'), ('ciphers', 'ciphers'), ('macs', 'macs')):
         if pol[f] is not None:
+            if pol[f] == ['']:
+                lines.append('%s = ' % key)      # the empty name-list of a peer is [''] (ReadBuf.read_list); -M writes it like this, and it reads back as ['']
+                continue
             if len(pol[f]) == 0 or not all(text_safe_name(x) for x in pol[f]):
                 return None
             lines.append('%s = %s' % (key, ', '.join(pol[f])))
@@ -817,7 +820,13 @@ def run(ctx):
                 from ssh_audit.policy import Policy
                 P = Policy(policy_data=text)
                 legacy = legacy_policy_text(pol)
+                stated = pol
                 pol = pol_of_object(P)
+                # "every field the policy specifies": the lists, banner and flags the file states are the ones the loaded policy holds (names the text format expresses verbatim)
+                LF = ('compressions', 'host_keys', 'optional_host_keys', 'kex', 'ciphers', 'macs', 'banner', 'subset', 'larger')
+                if any(pol[k] != stated[k] for k in LF):
+                    diff = [k for k in LF if pol[k] != stated[k]]
+                    orc.viol('policy-text/loaded-differently', 'the policy file states %s = %r but the loaded policy holds %r; text: %r' % (diff, [stated[k] for k in diff], [pol[k] for k in diff], text), stated, peer)
                 focus += '/text'
                 if legacy is not None:
                     # the deprecated spelling of the same policy must load as the same policy (same fields, hence the same verdicts)
@@ -887,8 +896,15 @@ def run(ctx):
         (new_pol(host_keys=['ha'], optional_host_keys=['hb']), new_peer(key=['hb', 'ha', 'hb'])),
         (new_pol(hostkey_sizes={'k': (2048, 'ssh-rsa', 2048)}), new_peer(host_keys={'k': (2048, 'ssh-ed25519', 256)})),
         (new_pol(hostkey_sizes={'k': (2048, 'ssh-rsa', 2048)}, larger=True), new_peer(host_keys={'k': (2047, 'ssh-rsa', 2047)})),
+        # lists of length 0 on both sides: a policy line with an empty value, a peer with an empty name-list (exact and subset mode), and the mismatching neighbours
+        (new_pol(macs=['']), new_peer(mac=[''])),
+        (new_pol(macs=[''], subset=True), new_peer(mac=[''])),
+        (new_pol(ciphers=[''], kex=['ka']), new_peer(enc=[''], kex=['ka'])),
+        (new_pol(compressions=[''], host_keys=['']), new_peer(compression=[''], key=[''])),
+        (new_pol(macs=['']), new_peer(mac=['ma'])),
+        (new_pol(macs=['ma'], subset=True), new_peer(mac=[''])),
     ]:
-        r = one(pol, peer, 'witness', True)
+        r = one(pol, peer, 'witness', True, via_text=(pol['kex'] != ['007'] and ' 42 ' not in peer['enc']))
         if len(samples) < 12:
             samples.append({'focus': 'witness', 'policy': pol, 'peer': peer, 'passed': r[0], 'errors': [e['mismatched_field'] for e in r[1]]})
     # policies whose host-key and modulus sizes are expressible with the deprecated per-key directives (both spellings must load alike)
